@@ -36,6 +36,10 @@ std::vector<Cloud> clouds3(bool th) {
       for (int i = 1; i < 20; ++i) c.pts.push_back({2500.24, 300 + j * 0.012 + 0.0013 * ((i + j * 5) % 3), -1.5 + i * 0.012 + 0.0011 * ((i * 3 + j) % 4)});
     }
     v.push_back(c); }
+  { Cloud c; c.name = "tilted plane (2,-1,2)/3 at 3 with every 9th point stored three times (first points included)"; plane_patch(c, {2, -1, 2}, 3.0, 13, 12, 0.08);
+    std::vector<std::array<double, 3>> q; for (size_t i = 0; i < c.pts.size(); ++i) { q.push_back(c.pts[i]); if (i % 9 == 0) { q.push_back(c.pts[i]); if (i % 18 == 0) q.push_back(c.pts[i]); } }
+    for (size_t i = 0; i < c.pts.size(); i += 18) if (i % 18 != 0 || true) { if (i % 36 == 18) q.push_back(c.pts[i]); }   // the third copy of some points is stored far from the first two
+    c.pts = q; v.push_back(c); }
   { Cloud c; c.name = "two planes meeting (roof)"; c.planar = false; for (int i = 0; i < 21; ++i) for (int j = 0; j < 10; ++j) { double x = (i - 10) * 0.1 + 0.007 * ((i * 3 + j) % 4), y = j * 0.1 + 0.009 * ((i + j * 5) % 3); c.pts.push_back({x, y, 4 - 0.5 * std::fabs(x)}); } v.push_back(c); }
   { Cloud c; c.name = "sphere patch radius 5 about (0,0,9)"; c.planar = false; for (int i = 0; i < 15; ++i) for (int j = 0; j < 15; ++j) { double a = (i - 7) * 0.04 + 0.003 * ((i * 5 + j) % 7), b = (j - 7) * 0.04 + 0.002 * ((i + 3 * j) % 5); c.pts.push_back({5 * std::sin(a), 5 * std::sin(b) * std::cos(a), 9 - 5 * std::cos(a) * std::cos(b)}); } v.push_back(c); }
   { Cloud c; c.name = "full sphere radius 2 about (1,-3,4) (silhouette points included)"; c.planar = false; for (int i = 0; i < 400; ++i) { double z = 1 - 2 * (i + 0.5) / 400, r = std::sqrt(1 - z * z), a = i * 2.399963229728653; c.pts.push_back({1 + 2 * r * std::cos(a), -3 + 2 * r * std::sin(a), 4 + 2 * z}); } v.push_back(c); }
@@ -133,6 +137,7 @@ template <class PT> void run_cloud(vf::Ctx& c, const char* tname, const Cloud& c
     cov /= (LD)k;
     Eigen::SelfAdjointEigenSolver<LMt> es(cov);
     LD l0 = es.eigenvalues()(0), l1 = es.eigenvalues()(1), lmax = es.eigenvalues()(DIM - 1);
+    if (!(lmax > 0)) { c.trivial(); continue; }   // all k neighbours coincide (a point stored k times): no plane, no curvature - outside the statement
     LD gap = (l1 - l0) / lmax, spread = sqrtl(lmax);
     LD bound = 6 * eps * (1 + rad / spread) / std::max<LD>(gap, 1e-30L);   // two-pass covariance: centring error eps R relative to the spread s
     LD curv = DIM > 0 ? (LD)c3[i] : 0;
